@@ -12,8 +12,9 @@ vars == <<cs, gnd>>
 Nodes == 0..(MaxN - 1)
 Pv(p) == <<2, 3, 5, 7, 11>>[p]
 UnitAt(p) == << <<Q(3,5), Q(4,5)>>, CJ1, <<Q(5,13), Q(-12,13)>>, C1, <<Q(-4,5), Q(3,5)>> >>[p]
+QuarterAt(p) == << CJ1, C1, CNeg(CJ1), CNeg(C1), CJ1 >>[p]      \* phases of periodic sources: quarter turns (u^n stays small)
 AllKinds == <<"R","G","Z","Y","C","L","LP","LD","SC","DV","DVR","AV1","AVR1","AV2","DI","DIG","AI1","AIG1","AI2","CV","CI",
-              "PVr","PVt","PVs","PIr","PVRr">>
+              "PVr","PVt","PVs","PIr","PVRr","PV10","AV03","PIs">>
 KindNo(k) == CHOOSE i \in 1..Len(AllKinds) : AllKinds[i] = k
 
 CompOf(k, p, n1, n2) ==
@@ -39,11 +40,14 @@ CompOf(k, p, n1, n2) ==
     [] k = "AI2" -> Comp("ac_current_source", id, n1, n2, [I |-> RI(-p), G |-> R0, w |-> RI(2), u |-> UnitAt(p)])
     [] k = "CV"  -> Comp("complex_voltage_source", id, n1, n2, [V |-> <<RI(p), RI(1)>>, Z |-> C0])
     [] k = "CI"  -> Comp("complex_current_source", id, n1, n2, [I |-> <<RI(1), RI(-p)>>, Y |-> C0])
-    [] k = "PVr" -> Comp("periodic_voltage_source", id, n1, n2, [wave |-> "rect", V |-> RI(p + 1), w |-> R1, u |-> UnitAt(p), R |-> R0])
-    [] k = "PVt" -> Comp("periodic_voltage_source", id, n1, n2, [wave |-> "tri", V |-> RI(Pv(p)), w |-> Q(1,2), u |-> UnitAt(p + 1), R |-> R0])
-    [] k = "PVs" -> Comp("periodic_voltage_source", id, n1, n2, [wave |-> "saw", V |-> RI(-p), w |-> R1, u |-> UnitAt(p), R |-> R0])
-    [] k = "PVRr" -> Comp("periodic_voltage_source", id, n1, n2, [wave |-> "rect", V |-> RI(p), w |-> R1, u |-> UnitAt(p), R |-> RI(p)])
-    [] k = "PIr" -> Comp("periodic_current_source", id, n1, n2, [wave |-> "rect", I |-> RI(p), w |-> RI(2), u |-> UnitAt(p + 1), G |-> R0])
+    [] k = "PVr" -> Comp("periodic_voltage_source", id, n1, n2, [wave |-> "rect", V |-> RI(p + 1), w |-> R1, u |-> QuarterAt(p), R |-> R0])
+    [] k = "PVt" -> Comp("periodic_voltage_source", id, n1, n2, [wave |-> "tri", V |-> RI(Pv(p)), w |-> Q(1,2), u |-> QuarterAt(p + 1), R |-> R0])
+    [] k = "PVs" -> Comp("periodic_voltage_source", id, n1, n2, [wave |-> "saw", V |-> RI(-p), w |-> R1, u |-> QuarterAt(p), R |-> R0])
+    [] k = "PVRr" -> Comp("periodic_voltage_source", id, n1, n2, [wave |-> "rect", V |-> RI(p), w |-> R1, u |-> QuarterAt(p), R |-> RI(p)])
+    [] k = "PV10" -> Comp("periodic_voltage_source", id, n1, n2, [wave |-> "rect", V |-> RI(p + 1), w |-> Q(1,10), u |-> QuarterAt(p), R |-> R0])
+    [] k = "AV03" -> Comp("ac_voltage_source", id, n1, n2, [V |-> RI(p + 2), R |-> R0, w |-> Q(3,10), u |-> UnitAt(p + 1)])
+    [] k = "PIs" -> Comp("periodic_current_source", id, n1, n2, [wave |-> "saw", I |-> RI(p), w |-> R1, u |-> QuarterAt(p), G |-> Q(1, p + 1)])
+    [] k = "PIr" -> Comp("periodic_current_source", id, n1, n2, [wave |-> "rect", I |-> RI(p), w |-> RI(2), u |-> QuarterAt(p + 1), G |-> R0])
 
 Code(n1, n2, k) == (n1 * MaxN + n2) * 32 + KindNo(k)
 LastCode == IF cs = <<>> THEN 0 ELSE LET c == cs[Len(cs)] IN Code(c.n1, c.n2, c.kk)
